@@ -383,7 +383,7 @@ pub struct Archive {
 
 #[derive(Clone, Copy, Debug, Serialize, Deserialize, PartialEq, Eq)]
 pub struct BigGen {
-    /// 1 LongRun, 2 ManyRegular, 3 Gigantic, 4 Colossal, 5 Titanic
+    /// 1 LongRun, 2 ManyRegular, 3 Gigantic, 4 Colossal, 5 Titanic, 6 MegaRegular
     pub class: u8,
     pub seed: u64,
 }
@@ -430,6 +430,25 @@ pub fn big_tiles(class: u8, seed: u64) -> Vec<Tile> {
     let rng = &mut r;
     let mut tiles: Vec<Tile> = Vec::new();
     match class {
+        6 => {
+            // regular entries (consecutive ids, distinct 4-byte contents) well beyond 2^18, so the
+            // plain directory is above 1 MiB while its compressed form still fits the root; around
+            // entry numbers 2^16, 2^17 and 2^18 every entry is a run of 2-3 identical tiles, so
+            // whatever is done per 2^16 entries meets a run at its boundary
+            let n_entries = *rng.pick(&[270_000u64, 300_000, 300_000, 1_100_000]);
+            let base = rng.below(50);
+            let cseed = rng.next_u64() as u32 & 0x00ff_ffff;
+            let mut id = base;
+            tiles.reserve(n_entries as usize + 400);
+            for e in 0..n_entries {
+                let near = [1u64 << 16, 1 << 17, 1 << 18].iter().any(|b| e + 24 >= *b && e < *b + 24);
+                let run = if near { 2 + rng.below(2) } else { 1 };
+                for _ in 0..run {
+                    tiles.push(Tile { id, c: Cont { k: 0, seed: cseed.wrapping_add(e as u32), len: 4 } });
+                    id += 1;
+                }
+            }
+        }
         5 => {
             // ids about 2^40 apart: a pointer to a 4096-entry leaf costs 13 bytes, so more than
             // 1251 leaves (5.13 million entries) push the first pointer root over the budget
@@ -475,7 +494,7 @@ pub fn big_tiles(class: u8, seed: u64) -> Vec<Tile> {
         }
         1 => {
             let n = *rng.pick(&[65_535u64, 65_536, 65_537, 70_000, 131_073]);
-            let base = rng.below(1000);
+            let base = if rng.chance(35) { 0 } else { rng.below(1000) };
             let c = Cont { k: 1, seed: rng.below(256) as u32, len: 1 + rng.below(3) as u32 };
             for i in 0..n {
                 tiles.push(Tile { id: base + i, c });
@@ -509,6 +528,8 @@ pub enum SizeClass {
     /// about 5.4 million non-mergeable entries at ids ~2^40 apart: the pointer root over
     /// 4096-entry leaves is above the budget, so the writer has to grow the leaves and retry
     Titanic,
+    /// 270 000 - 1 100 000 regular entries with runs placed around entry numbers 2^16, 2^17, 2^18
+    MegaRegular,
     /// more than 65 536 regular entries (distinct equal-size contents at consecutive ids): with a
     /// compressing codec they all fit one root directory
     ManyRegular,
@@ -533,12 +554,13 @@ pub fn draw_archive(rng: &mut Rng, size: SizeClass, ic: u8) -> Archive {
     let meta = Meta::draw(rng);
     let mut tiles = Vec::new();
     match size {
-        SizeClass::Titanic | SizeClass::Colossal | SizeClass::Gigantic | SizeClass::ManyRegular | SizeClass::LongRun => {
+        SizeClass::MegaRegular | SizeClass::Titanic | SizeClass::Colossal | SizeClass::Gigantic | SizeClass::ManyRegular | SizeClass::LongRun => {
             let class = match size {
                 SizeClass::LongRun => 1,
                 SizeClass::ManyRegular => 2,
                 SizeClass::Gigantic => 3,
                 SizeClass::Titanic => 5,
+                SizeClass::MegaRegular => 6,
                 _ => 4,
             };
             return Archive { tiles: Vec::new(), meta, set, gen: Some(BigGen { class, seed: rng.next_u64() }) };
